@@ -165,6 +165,13 @@ def check(ctx):
                                                           "test": "TestVerifPoolRace", "env": env, "report": cls[1]})
             break
     ctx.cov["pool_concurrency_runs"] = len(pool_runs)
+    if not any(v["kind"].startswith("pool-concurrent") for v in ctx.violations):
+        # the same question with the schedule forced: Get / Put while the janitor pass is inside a slow Close
+        rc, out = c12.run_workload(ctx, binary, "TestVerifCleanupWindow", {})
+        cls = c12.classify(rc, out)
+        if cls:
+            C.violation(ctx, "pool-concurrent-" + cls[0], {"what": "Get / Put while the janitor pass is closing a stale connection: " + cls[0],
+                                                          "test": "TestVerifCleanupWindow", "report": cls[1]})
     nontriv = set()
     if bad == 0:
         for ep, outs in zip(episodes, d.last[0]):
